@@ -18,6 +18,13 @@ enum St {
 }
 
 pub fn check(v: &View, vd: &mut Verdict) {
+    // "on every graceful end (stop through any handle or from the context ...) stopped exactly once": an
+    // accepted stop request does end the actor (the barrier rules without the awaiter part)
+    super::c13::stop_starved(v, vd, "C03");
+    // (not when a stream ended: that ends the actor too, without draining its mailbox)
+    if !v.hist.iter().any(|e| matches!(e.kind, EvKind::StreamEnded { .. })) {
+        super::c04::barrier(v, vd, "C03", false);
+    }
     let n = v.actors.len();
     for a in 0..n {
         if v.rt[a].origin == Origin::Phantom || v.actors[a].spawned.is_none() {
